@@ -149,9 +149,12 @@ func (q *Queue[T]) BlockingAdd(ctx context.Context, item T) error {
 
 	cond := q.nupdates
 
-	// If the context terminates, wake the waiter.
+	// If the context terminates, wake the waiter. The broadcast
+	// happens under the lock: otherwise it can fall between the
+	// waiter's check of the context and its registration in
+	// cond.Wait, and the waiter would sleep with a dead context.
 	ctx, cancel := context.WithCancel(ctx)
-	go func() { <-ctx.Done(); cond.Broadcast() }()
+	go func() { <-ctx.Done(); q.mu.Lock(); cond.Broadcast(); q.mu.Unlock() }()
 	defer cancel()
 
 	for q.tracker.cap() <= q.tracker.len() {
@@ -204,9 +207,10 @@ func (q *Queue[T]) Wait(ctx context.Context) (out T, _ error) {
 // caller must hold the lock, but this implements the wait behavior
 // without modifying the queue for use in the iterator.
 func (q *Queue[T]) unsafeWaitWhileEmpty(ctx context.Context) error {
-	// If the context terminates, wake the waiter.
+	// If the context terminates, wake the waiter (under the lock,
+	// see BlockingAdd).
 	ctx, cancel := context.WithCancel(ctx)
-	go func() { <-ctx.Done(); q.nempty.Broadcast() }()
+	go func() { <-ctx.Done(); q.mu.Lock(); q.nempty.Broadcast(); q.mu.Unlock() }()
 	defer cancel()
 
 	for q.tracker.len() == 0 {
@@ -230,7 +234,7 @@ func (q *Queue[T]) waitForNew(ctx context.Context, cursor ...*entry[T]) error {
 
 	// when the function returns wake all other waiters.
 	ctx, cancel := context.WithCancel(ctx)
-	go func() { <-ctx.Done(); q.nupdates.Broadcast() }()
+	go func() { <-ctx.Done(); q.mu.Lock(); q.nupdates.Broadcast(); q.mu.Unlock() }()
 	defer cancel()
 
 	// wait until the entry the caller has last seen (by default
